@@ -300,6 +300,7 @@ def run(ctx):
         ('outerjoin(missing)', 2, lambda a, b: etl.outerjoin(a, b, key='x', missing='NA')),
     ], 360 if ctx.thorough() else 90)
     util.exotic_key_cases(etl, rng, ctx, 'C06', 200 if ctx.thorough() else 50)
+    util.positional_call_cases(etl, rng, ctx, ['join', 'leftjoin', 'rightjoin', 'outerjoin', 'antijoin', 'lookupjoin'], 120 if ctx.thorough() else 36, 2)
 
 def replay(d):
     print('replay case:', d.get('case'))
